@@ -48,6 +48,6 @@ func run(e *ev.Env) {
 	corpus(e)
 	e.Cases("sched", e.N(96, 1600), func(c *ev.Case) { runSched(e, c) })
 	e.Cases("walk", e.N(600, 100000), func(c *ev.Case) { runWalk(e, c) })
-	e.Cases("overlap", e.N(2000, 150000), func(c *ev.Case) { runOverlap(e, c) })
+	e.Cases("overlap", e.N(2000, 100000), func(c *ev.Case) { runOverlap(e, c) })
 	e.Cases("timed", e.N(3000, 300000), func(c *ev.Case) { runTimed(e, c) })
 }
